@@ -254,6 +254,9 @@ def c11_cast(a: ValueType, b: ValueType) -> tuple[ValueType, ValueType]:
         return a, b
     va = deepcopy(a)
     vb = deepcopy(b)
+    # The common type is an integer type. A converted operand is never an IL bool.
+    va.group &= ~VTGroup.BOOL
+    vb.group &= ~VTGroup.BOOL
 
     if sign_match:
         if va.bit_width < vb.bit_width:
